@@ -57,7 +57,7 @@ def plan(tier):
         return {"runs": 200000, "slice": 500, "budget_s": 2400,
                 "slice_timeout_s": 900}
     return {"runs": 4000, "slice": 100, "budget_s": 150,
-            "slice_timeout_s": 300}
+            "slice_timeout_s": 600}
 
 
 # --------------------------------------------------------------------------
